@@ -85,6 +85,7 @@ class Book:
         self.mem = collections.defaultdict(lambda: collections.defaultdict(set))   # ns -> room -> {sid}
         self.alive = []                                                 # open transports
         self.ever = []                                                  # every sid ever connected (ns, sid)
+        self.known_ns = set()                                           # namespaces that ever had a client
 
     def tsid(self, ns, tid):
         for sid, t in self.conn[ns].items():
@@ -99,6 +100,7 @@ class Book:
         self.conn[ns][sid] = tid
         self.mem[ns][sid].add(sid)
         self.ever.append((ns, sid))
+        self.known_ns.add(ns)
 
     def connected(self, ns, sid):
         return sid in self.conn[ns]
@@ -217,8 +219,9 @@ def book_step(book, op):
 
 def in_domain(served, ops):
     """The quantifier of C03 (plus what the executors need): transports are opened before use and
-    not used after loss; `enter_room` of a session that is not connected to a *live* namespace only
-    as the very last operation."""
+    not used after loss; `enter_room` of a session that is not connected to the namespace only as
+    the very last operation — except on a namespace nobody has ever connected to ("operations
+    addressed to unknown namespaces"), where it may come anywhere."""
     book = Book(served)
     opened = set()
     for i, op in enumerate(ops):
@@ -229,7 +232,7 @@ def in_domain(served, ops):
             opened.add(op['t'])
         elif 't' in op and op['t'] not in book.alive:
             return False
-        if k == 'enter' and not book.connected(op['ns'], op['sid']) and book.live(op['ns']) \
+        if k == 'enter' and not book.connected(op['ns'], op['sid']) and op['ns'] in book.known_ns \
                 and i != len(ops) - 1:
             return False
         book_step(book, op)
@@ -242,7 +245,7 @@ def gen_history(rng):
     served = rng.sample(SERVED_POOL, rng.randint(1, 3))
     if rng.random() < 0.6 and '/' not in served:
         served[0] = '/'
-    n_tr = rng.randint(1, 6)
+    n_tr = rng.choice([1, 2, 2, 3, 3, 3, 4, 4, 4, 5, 5, 5, 6, 6, 6])
     n_ops = rng.randint(5, 60)
     book = Book(served)
     ops = []
@@ -262,6 +265,8 @@ def gen_history(rng):
         if rng.random() < p_unknown:
             return rng.choice([UNSERVED] + SERVED_POOL)
         live = [n for n in served if book.live(n)]
+        if live and rng.random() < 0.5:
+            return max(live, key=lambda n: len(book.conn[n]))
         return rng.choice(live or served)
 
     def known_sid(ns, p_connected=0.8):
@@ -298,7 +303,7 @@ def gen_history(rng):
             x = rng.random()
             if x < 0.06:
                 ns = UNSERVED
-            elif x < 0.8:
+            elif x < 0.9:
                 free = [n for n in served if book.tsid(n, t) is None]
                 ns = rng.choice(free or served)
             else:
@@ -309,10 +314,15 @@ def gen_history(rng):
             counter[0] += 1
         emit_op({'op': 'connect', 't': t, 'ns': ns, 'name': name})
 
-    for _ in range(rng.randint(1, n_tr)):
+    for _ in range(n_tr if rng.random() < 0.7 else rng.randint(1, n_tr)):
         new_transport()
-    for _ in range(rng.randint(0, min(4, len(book.alive) + 1))):
-        do_connect()
+    main = served[0]
+    for t in list(book.alive):
+        for ns, p in [(main, 0.8)] + [(n, 0.3) for n in served[1:]]:
+            if rng.random() < p and len(ops) < n_ops - 1:
+                name = 's%d' % counter[0]
+                counter[0] += 1
+                emit_op({'op': 'connect', 't': t, 'ns': ns, 'name': name})
 
     while len(ops) < n_ops:
         last = len(ops) == n_ops - 1
@@ -324,7 +334,7 @@ def gen_history(rng):
         elif x < 0.42:
             ns = any_ns(0.06)
             sid = known_sid(ns, 0.93)
-            if not book.connected(ns, sid) and book.live(ns) and not last:
+            if not book.connected(ns, sid) and ns in book.known_ns and not last:
                 continue
             emit_op({'op': 'enter', 'ns': ns, 'sid': sid, 'room': a_room(ns, 0.45)})
         elif x < 0.51:
@@ -698,7 +708,7 @@ def run(ctx):
         'python-engineio queues a packet on the addressed socket or drops it if the socket is closed',
     ])
     rng = ctx.rng
-    n_hist = ctx.scale(300, 6000)
+    n_hist = ctx.scale(1200, 24000)
     deadline = ctx.t0 + ctx.scale(50, 540)
     drv = C.Driver('rooms')
     evals = 0
@@ -771,8 +781,9 @@ def run(ctx):
         'the personal room is a room entered at connect: leave_room(sid, sid) / close_room(sid) take the '
         'client out of it like out of any other room (DESIGN §5 C03)',
         'emit is called without a callback (acknowledged emits: C06)',
-        'empty-list / falsy targets are not generated; enter_room of a session that is not connected to a '
-        'live namespace only as the last operation of a history (exception class compared, nothing else)',
+        'empty-list / falsy targets are not generated; enter_room of a session that is not connected to the '
+        'namespace only as the last operation of a history, or anywhere when nobody has ever connected to '
+        'that namespace (exception class compared, nothing else)',
         'room names: strings, strings equal to session ids, one integer; no tuple/list room names',
     ]
 
